@@ -199,6 +199,10 @@ def h_success(suite, scenario):
     return ['log', 'success', sum(1 for l, _ in RECORDS if l >= 20)]
 
 
+EXTRA_SECRETS = []
+MX = MNL = None
+
+
 def h_failure(kind):
     """failure paths: wrong PSK, wrong identity, no proposal, unacceptable selectors, kernel refusal (internal error), garbage inside an
     authentic message"""
@@ -208,7 +212,17 @@ def h_failure(kind):
     del RECORDS[:]
     del WIRE[:]
     del c01.NONCES[:]
+    del EXTRA_SECRETS[:]
     p = c01.mk_pair('default')
+    if kind == 'kernel_refusal_netlink':
+        # keys handed to the (real) kernel interface are secrets: record them at the Xfrm.create_sa boundary of the model module
+        real_create = MX.Xfrm.__dict__['create_sa'].__func__
+
+        def spy_create(cls, *a, **k):
+            EXTRA_SECRETS.append(('a CHILD_SA encryption key', a[11] if len(a) > 11 else k.get('sk_e')))
+            EXTRA_SECRETS.append(('a CHILD_SA integrity key', a[13] if len(a) > 13 else k.get('sk_a')))
+            return real_create(cls, *a, **k)
+        MX.Xfrm.create_sa = classmethod(spy_create)
     v = {k: eng.sym_bytes(k, 8) for k in ('a_my_psk', 'b_peer_psk', 'b_my_psk', 'a_peer_psk')}
     c02.set_auth(p.a, 'my_auth', psk=v['a_my_psk']); c02.set_auth(p.b, 'peer_auth', psk=v['b_peer_psk'])
     c02.set_auth(p.b, 'my_auth', psk=v['b_my_psk']); c02.set_auth(p.a, 'peer_auth', psk=v['a_peer_psk'])
@@ -227,6 +241,29 @@ def h_failure(kind):
         for sa, pair in ((p.a, (world.IP1, world.IP2)), (p.b, (world.IP2, world.IP1))):
             conf = cf.get_ike_configuration(*pair)
             sa.configuration = conf._replace(my_auth=sa.configuration.my_auth, peer_auth=sa.configuration.peer_auth)
+    if kind == 'wrong_method':
+        # the initiator authenticates with an RSA key while the responder only holds a PSK for it (and vice versa for the response)
+        from symx import shims as _sh
+        rsa_uf = _sh.UF('rsa_sign')
+        c02.set_auth(p.a, 'my_auth', privkey=c02.ModelRsa(b'key-a', rsa_uf))
+    if kind == 'kernel_refusal_netlink':
+        # the real netlink layer (modelled ctypes) gets an error reply from the kernel for every XFRM_MSG_NEWSA
+        from . import c14
+        import types as _t
+
+        class ErrSock(c14.Sock):
+            def recv(self, n):
+                import struct
+                last = self.sent[-1]
+                from symx import core as _c
+                ty = _c.SymBytes.lift(last)[4]
+                if isinstance(ty, int) and ty == 0x10:
+                    return struct.pack('=IHHII', 36, 2, 0, 0, 0) + struct.pack('=i', -17) + bytes(16)
+                return c14.Sock.recv(self, n)
+        sock = ErrSock()
+        MX.Xfrm._get_socket = classmethod(lambda cls, groups: sock)
+        MNL.time = _t.SimpleNamespace(time=lambda: 1700000000.5)
+        MODS['ikesa'].xfrm = MX
     if kind == 'kernel_refusal':
         class Refusing(symcrypto.RecKernel):
             def create_sa(self, *a, **k):
@@ -261,7 +298,8 @@ def h_failure(kind):
                 pass
     finally:
         shims.HMAC_UF.injective = False
-    bad = judge(eng, secrets_of(p), kind)
+        MODS['ikesa'].xfrm = MODS['xfrm']
+    bad = judge(eng, secrets_of(p) + EXTRA_SECRETS, kind)
     if bad:
         return {'class': ['log'], 'violation': bad}
     return ['log', kind, p.a.state.name, p.b.state.name, sum(1 for l, _ in RECORDS if l >= 20)]
@@ -274,7 +312,7 @@ def build_instances(tier):
             ((('subset', 'init+new@B'), ('default', 'init+ike@B+rekey@B+new@A')) if tier == 'thorough' else ()):
         inst.append(Instance(f'success {suite} {sc}', h_success, (suite, sc), engine_kw={'max_ticks': 10 ** 7},
                              must_reach=[('records', lambda o: o[:2] == ['log', 'success'] and o[2] > 5)]))
-    for kind in ('wrong_psk_initiator', 'wrong_psk_responder', 'no_proposal', 'ts_unacceptable', 'kernel_refusal', 'garbage'):
+    for kind in ('wrong_psk_initiator', 'wrong_psk_responder', 'wrong_method', 'no_proposal', 'ts_unacceptable', 'kernel_refusal', 'kernel_refusal_netlink', 'garbage'):
         inst.append(Instance(f'failure {kind}', h_failure, (kind,), engine_kw={'max_ticks': 10 ** 7},
                              must_reach=[('records', lambda o: o[0] == 'log' and o[-1] > 3)]))
     return inst
@@ -290,6 +328,18 @@ def _load(shim):
     c01.install_nonce_recorder(MODS['message'])
     install_capture(MODS)
     install_wire_tap(MODS)
+    global MX, MNL
+    if shim:
+        from symx import ctmodel
+        MNL, MX = ctmodel.load_against_model(common.REPO)
+        MX.logging = MNL.logging = CaptureLogging
+        MX.random = MODS['xfrm'].random
+        MNL.os = __import__('types').SimpleNamespace(getpid=lambda: 1, strerror=lambda e: 'File exists')
+    else:
+        import importlib, sys
+        sys.modules.pop('xfrm', None)
+        MX, MNL = importlib.import_module('xfrm'), MODS['netlink']
+        MX.logging = CaptureLogging
     return MODS
 
 
@@ -307,7 +357,8 @@ def main(tier, seed):
                                           ik._process_create_child_sa_negotiation_res, MODS['ikesacontroller'].IkeSaController.dispatch_message),
                 bounds={'histories': '6 (thorough 8) success scenarios of the C01 harness (initial, CREATE_CHILD_SA new/rekey from either side, IKE_SA rekey, PFS, AH, '
                                      'INVALID_KE retries) and 6 failure paths: wrong PSK on either side (AUTHENTICATION_FAILED), NO_PROPOSAL_CHOSEN, TS_UNACCEPTABLE, '
-                                     'a kernel refusal (internal-error path with traceback), an authentic message with an arbitrary malformed payload',
+                                     'an unsupported AUTH method, a kernel refusal (internal-error path with traceback) at the Python level and through the real netlink layer (modelled '
+                                     'ctypes, NLMSG_ERROR reply), an authentic message with an arbitrary malformed payload',
                         'secrets': 'all PSKs (8 symbolic bytes each), every component of every IKE keyring, every CHILD_SA key handed to the kernel, every DH shared '
                                    'secret - all symbolic; a record is judged by a non-interference query over them',
                         'outside': 'text produced inside library exceptions of cryptography/OpenSSL; log records of pyikev2.py (start-up) and of the real netlink layer; '
